@@ -3,7 +3,7 @@
 
   tools/mutation_audit.py [--prop C01] [--id M-C01-1] [--scale 1.0] [--jobs 1]
 
-Each mutant (audit/mutants.json) is {"id", "property", "file", "old", "new",
+Each mutant (audit/mutants_<prop>.json) is {"id", "property", "file", "old", "new",
 "count" (default 1), "note", "expect": "kill" | "survive"}.  A scratch copy of
 /repo/tensorflow_lattice is made under $TMPDIR, the textual replacement is
 applied, the property's quick check runs with VERIF_REPO pointing at the copy,
@@ -67,8 +67,11 @@ def main():
   ap.add_argument("--tier", default="quick")
   ap.add_argument("--no-write", action="store_true")
   args = ap.parse_args()
-  with open(os.path.join(HERE, "audit", "mutants.json")) as f:
-    mutants = json.load(f)
+  import glob
+  mutants = []
+  for path in sorted(glob.glob(os.path.join(HERE, "audit", "mutants_*.json"))):
+    with open(path) as f:
+      mutants += json.load(f)
   sel = [m for m in mutants
          if (not args.prop or m["property"] == args.prop.upper()) and
          (not args.id or m["id"] == args.id)]
